@@ -1,6 +1,7 @@
 // BMP: gil writer variants + harness encoders for the variants gil can read but not write.
 #include "iosim.hpp"
 #include "fmt_common.hpp"
+#include "iosim_rt.hpp"
 #include <boost/gil/extension/io/bmp.hpp>
 
 namespace sim {
@@ -124,6 +125,13 @@ bool make_raw(std::string const& v, int w, int h, uint64_t cs, Bytes& b)
     return true;
 }
 
+std::vector<Variant> const& g_variants()
+{
+    static std::vector<Variant> const v = {{"rgb8", "rgb8"}, {"rgba8", "rgba8"}, {"pal1", "rgba8"}, {"pal4", "rgba8"}, {"pal8", "rgba8"}, {"os2pal8", "rgb8"},
+                  {"rle4", "rgb8"}, {"rle8", "rgb8"}, {"rgb555", "rgb8"}, {"bf565", "rgb8"}, {"topdown24", "rgb8"}, {"v4_24", "rgb8"}, {"v5_32", "rgba8"}};
+    return v;
+}
+
 bool make(std::string const& v, int w, int h, uint64_t cs, Bytes& out)
 {
     out.clear();
@@ -182,12 +190,45 @@ long declared(Bytes const& b)
     return (long)(w * h);
 }
 
+Outcome roundtrip(Json const& plan)
+{
+    std::string v = plan.str("variant");
+    gil::image_write_info<Tag> info;
+    if (v == "rgb8") return RoundTrip<Tag, gil::rgb8_image_t, true>::run(plan, "bmp", info);
+    if (v == "rgba8") return RoundTrip<Tag, gil::rgba8_image_t, true>::run(plan, "bmp", info);
+    Outcome o; o.cls = "skipped:type"; return o;
+}
+
+Outcome paths(Json const& plan)
+{
+    std::string v = plan.str("variant");
+    Bytes bytes;
+    if (!make(v, (int)plan.num("w", 1), (int)plan.num("h", 1), (uint64_t)plan.num("cseed"), bytes)) { Outcome o; o.cls = "skipped:variant"; return o; }
+    using any_t = gil::any_image<gil::rgb8_image_t, gil::rgba8_image_t>;
+    static char const* const names[] = {"gray8", "rgb8", "rgba8"};
+    PathsCfg cfg;
+    cfg.scan_refused = (v == "rle4" || v == "rle8"); // bmp/detail/scanline_read.hpp: "Cannot read run-length encoded images in iterator mode."
+    // OS/2 palette images: read_image accepts only rgb8 (is_allowed) while the scanline reader hands out rgba8 rows
+    // with alpha 0; the two layouts cannot be compared channel by channel, so the scanline path is not judged there
+    if (v == "os2pal8") cfg.scan_refused = true;
+    std::string native;
+    for (auto const& x : g_variants()) if (x.name == v) native = x.native;
+    // layout of the rows handed out by the scanline reader (cf. test/extension/io/bmp/bmp_read_test.cpp):
+    // 24 bit -> bgr8, 32 bit -> bgra8, palette and 15/16 bit -> the read_image type
+    using P3 = gil::gray8_pixel_t; using P4 = gil::rgb8_pixel_t; using P5 = gil::rgba8_pixel_t;
+    if (v == "rgb8" || v == "topdown24" || v == "v4_24") return PathsFor<Tag, gil::rgb8_image_t, any_t, gil::bgr8_image_t, P3, P4, P5>::run(plan, bytes, "bmp", cfg, names);
+    if (v == "rgba8" || v == "v5_32") return PathsFor<Tag, gil::rgba8_image_t, any_t, gil::bgra8_image_t, P3, P4, P5>::run(plan, bytes, "bmp", cfg, names);
+    if (native == "rgba8") return PathsFor<Tag, gil::rgba8_image_t, any_t, gil::rgba8_image_t, P3, P4, P5>::run(plan, bytes, "bmp", cfg, names);
+    return PathsFor<Tag, gil::rgb8_image_t, any_t, gil::rgb8_image_t, P3, P4, P5>::run(plan, bytes, "bmp", cfg, names);
+}
+
 Format make_format()
 {
     Format f;
     f.name = "bmp"; f.ext = "bmp";
-    f.variants = {{"rgb8", "rgb8"}, {"rgba8", "rgba8"}, {"pal1", "rgba8"}, {"pal4", "rgba8"}, {"pal8", "rgba8"}, {"os2pal8", "rgb8"},
-                  {"rle4", "rgb8"}, {"rle8", "rgb8"}, {"rgb555", "rgb8"}, {"bf565", "rgb8"}, {"topdown24", "rgb8"}, {"v4_24", "rgb8"}, {"v5_32", "rgba8"}};
+    f.variants = g_variants();
+    f.write_types = {"rgb8", "rgba8"};
+    f.roundtrip = roundtrip; f.paths = paths;
     f.native_types = {"rgb8", "rgba8"};
     f.convert_types = {"gray8", "rgb8", "rgba8"};
     f.devices = {"FILE", "istream", "name"};
